@@ -29,6 +29,7 @@ type Config struct {
 
 type Violation struct {
 	Harness  string
+	Qualified string
 	AssertID string
 	Kind     string // "assert", "panic"
 	Detail   string
@@ -38,6 +39,7 @@ type Violation struct {
 
 type HarnessResult struct {
 	Name         string
+	Qualified    string
 	Paths        int
 	PathsPruned  int
 	Obligations  int // assertion instances checked with the solver or folded
@@ -162,6 +164,7 @@ type Exec struct {
 	Hooks      Hooks
 	descCache  map[string]*Opaque
 	Desc       *DescUniverse
+	funcsCache map[*ssa.Function]bool
 }
 
 // Hooks lets the driver plug environment models in.
@@ -1123,4 +1126,12 @@ func (e *Exec) execTolerant(fr *frame, instr ssa.Instruction) {
 		}
 	}()
 	e.exec(fr, instr)
+}
+
+// allFuncs enumerates every function of the program once (cached).
+func (e *Exec) allFuncs() map[*ssa.Function]bool {
+	if e.funcsCache == nil {
+		e.funcsCache = ssautilAllFunctions(e.Prog)
+	}
+	return e.funcsCache
 }
